@@ -111,6 +111,13 @@ def gen_mutants(path, src, ops):
                         return h.body, i
         return None, None
 
+    if "DEFAULT" in ops:
+        for fn in [n for n in ast.walk(tree) if isinstance(n, (ast.FunctionDef, ast.AsyncFunctionDef))]:
+            for dflt in list(fn.args.defaults) + [d_ for d_ in fn.args.kw_defaults if d_ is not None]:
+                if isinstance(dflt, ast.Constant) and isinstance(dflt.value, bool):
+                    def m(t2, tg):
+                        tg.value = not tg.value
+                    emit("DEFAULT", fn.name, dflt, m)
     for q, lst in bodies(tree):
         for i, s in enumerate(lst):
             if is_doc(s) or is_log(s):
@@ -179,6 +186,25 @@ def gen_mutants(path, src, ops):
                             sw = {ast.Lt: ast.LtE, ast.LtE: ast.Lt, ast.Gt: ast.GtE, ast.GtE: ast.Gt}
                             tg.ops = [sw[type(tg.ops[0])]()]
                         emit("CMP", q, c, m)
+            if "ARGSWAP" in ops and isinstance(s, (ast.Expr, ast.Assign, ast.Return, ast.AugAssign)):
+                for c in ast.walk(s):
+                    if isinstance(c, ast.Call) and len(c.args) >= 2 and not any(isinstance(a_, ast.Starred) for a_ in c.args[:2]) \
+                            and ast.dump(c.args[0]) != ast.dump(c.args[1]):
+                        def m(t2, tg):
+                            tg.args[0], tg.args[1] = tg.args[1], tg.args[0]
+                        emit("ARGSWAP", q, c, m)
+            if "PAIRSWAP" in ops and isinstance(s, ast.Assign) and isinstance(s.targets[0], ast.Tuple) and len(s.targets[0].elts) == 2 \
+                    and all(isinstance(x, (ast.Name, ast.Attribute)) for x in s.targets[0].elts):
+                def m(t2, tg):
+                    tg.targets[0].elts[0], tg.targets[0].elts[1] = tg.targets[0].elts[1], tg.targets[0].elts[0]
+                emit("PAIRSWAP", q, s, m)
+            if "CONST" in ops and isinstance(s, (ast.Expr, ast.Assign, ast.Return, ast.AugAssign, ast.If, ast.While, ast.For)):
+                hdr = s.test if isinstance(s, (ast.If, ast.While)) else s.iter if isinstance(s, ast.For) else s
+                for c in ast.walk(hdr):
+                    if isinstance(c, ast.Constant) and isinstance(c.value, int) and not isinstance(c.value, bool) and abs(c.value) <= 64 and getattr(c, "lineno", None):
+                        def m(t2, tg):
+                            tg.value = tg.value + 1
+                        emit("CONST", q, c, m)
             if "BOOL" in ops and isinstance(s, (ast.Expr, ast.Assign, ast.Return)):
                 for c in ast.walk(s):
                     if isinstance(c, ast.Call):
